@@ -254,40 +254,54 @@ func TestC20Lanes(t *testing.T) {
 			shape += d
 		}
 		wantSystem := shape == "O" || shape == "E(O)"
-		// whitelist / payer / granter
+		// the handler is built once, as at lane construction, and then serves several rounds in which the
+		// on-chain whitelist changes - within one block height (CheckTx state vs. proposal state) or across heights
+		free := lanes.NewFreeLaneMatchHandler(l2.AK.AddressCodec(), l2.K).MatchHandler()
 		var wl []string
-		for _, u := range users {
-			if rapid.Bool().Draw(rt, "wl") {
-				wl = append(wl, u.Str)
+		var wantFree bool
+		gi := -1
+		rounds := rapid.IntRange(1, 3).Draw(rt, "rounds")
+		for round := 0; round < rounds; round++ {
+			if round > 0 && rapid.Bool().Draw(rt, "nextHeight") {
+				l2.Ctx = l2.Ctx.WithBlockHeight(l2.Ctx.BlockHeight() + 1)
 			}
-		}
-		p, _ := l2.K.GetParams(l2.Ctx)
-		p.FeeWhitelist = wl
-		if err := l2.K.SetParams(l2.Ctx, p); err != nil {
-			panic(err)
-		}
-		payer := users[rapid.IntRange(0, 3).Draw(rt, "payer")]
-		var granter []byte
-		gi := rapid.IntRange(-1, 3).Draw(rt, "granter")
-		if gi >= 0 {
-			granter = users[gi].Addr
-		}
-		inWL := func(a string) bool {
-			for _, x := range wl {
-				if x == a {
-					return true
+			// whitelist / payer / granter
+			wl = nil
+			for _, u := range users {
+				if rapid.Bool().Draw(rt, "wl") {
+					wl = append(wl, u.Str)
 				}
 			}
-			return false
-		}
-		wantFree := inWL(payer.Str) || (gi >= 0 && inWL(users[gi].Str))
-		tx := feeTx{msgs: msgs, payer: payer.Addr, granter: granter}
-		if got := sys(l2.Ctx, tx); got != wantSystem {
-			rt.Fatalf("C20 violated: transaction %q treated as system transaction = %v, statement says %v", shape, got, wantSystem)
-		}
-		free := lanes.NewFreeLaneMatchHandler(l2.AK.AddressCodec(), l2.K).MatchHandler()
-		if got := free(l2.Ctx, tx); got != wantFree {
-			rt.Fatalf("C20 violated: fee exemption = %v for payer %s granter %v whitelist %v, statement says %v", got, payer.Str, gi, wl, wantFree)
+			p, _ := l2.K.GetParams(l2.Ctx)
+			p.FeeWhitelist = wl
+			if err := l2.K.SetParams(l2.Ctx, p); err != nil {
+				panic(err)
+			}
+			payer := users[rapid.IntRange(0, 3).Draw(rt, "payer")]
+			var granter []byte
+			gi = rapid.IntRange(-1, 3).Draw(rt, "granter")
+			if gi >= 0 {
+				granter = users[gi].Addr
+			}
+			inWL := func(a string) bool {
+				for _, x := range wl {
+					if x == a {
+						return true
+					}
+				}
+				return false
+			}
+			wantFree = inWL(payer.Str) || (gi >= 0 && inWL(users[gi].Str))
+			tx := feeTx{msgs: msgs, payer: payer.Addr, granter: granter}
+			if got := sys(l2.Ctx, tx); got != wantSystem {
+				rt.Fatalf("C20 violated: transaction %q treated as system transaction = %v, statement says %v", shape, got, wantSystem)
+			}
+			if got := free(l2.Ctx, tx); got != wantFree {
+				rt.Fatalf("C20 violated: fee exemption = %v for payer %s granter %v whitelist %v (round %d of one handler, height %d), statement says %v", got, payer.Str, gi, wl, round, l2.Ctx.BlockHeight(), wantFree)
+			}
+			if round > 0 {
+				c.Class("lanes/whitelist-changed-under-a-live-handler")
+			}
 		}
 		if len(shape) > 1 && (len(shape) > 3 || shape[0] == 'E') {
 			c.NonTrivial()
